@@ -1,6 +1,7 @@
 """C09 -- replay buffers hold exactly the most recent transitions, each one intact.
 
 M1  Ring_MC.cfg, MABuffer_MC.cfg (exhaustive, small capacities)
+M1' Ring_Ind.tla (Apalache): LenOK / ContentsOK / NoDup for histories of any length (inductive invariant, capacities <= 4 / 8)
 M2  Ring_Dump: every Add/Clear edge of the reachable graph is executed on the real ReplayBuffer
     (path cover), with sample(B) for every B <= len interleaved; all four observation kinds
 M3  every recorded execution (small scope and hypothesis-style random long runs with capacities up
@@ -11,6 +12,7 @@ from __future__ import annotations
 import random
 
 from .. import tlc
+from ..core import Vacuous
 from ..codec import OBS_KINDS
 from ..relation import Relation
 
@@ -63,6 +65,18 @@ def run(ctx):
     # ---- M1
     ctx.mc("Ring", "Ring_MC.cfg" if quick else "Ring_MCt.cfg", must_cover=["AddAny|Add", "SampleAny|Sample", "Clear"])
     ctx.mc("MABuffer", "MABuffer_MC.cfg" if quick else "MABuffer_MCt.cfg", must_cover=["SaveSingle", "SaveVectAny|SaveVect", "SampleAny|Sample"])
+
+    # ---- M1': unbounded histories -- Apalache shows IndInv of Ring_Ind.tla inductive (symbolic `added`, every capacity <= CapMax)
+    from .. import apalache
+    if apalache.available():
+        res = apalache.inductive("Ring_Ind", "CI4" if quick else "CI8", weak="Weak")
+        ctx.extra["apalache_inductive"] = res
+        if not res["proved"]:
+            raise tlc.TLCError(f"Ring_Ind: IndInv is not inductive / does not imply Safety: {res['steps']}")
+        if not res["negative_control"]["refuted"]:
+            raise Vacuous("Ring_Ind: the weakened invariant (without Layout) implies Safety as well: the inductive argument is vacuous")
+    else:
+        ctx.extra["apalache_inductive"] = "apalache-mc not on PATH: skipped"
 
     # ---- M2: path cover of the Add/Clear relation, replayed on the real buffer
     r = tlc.dump("Ring_Dump", "Ring_Dump.cfg")
